@@ -31,7 +31,8 @@ Local Open Scope Z_scope.
 """
 
 DTYPES = ["complex128", "complex64", "float64", "float32", "int64", "uint8"]
-CALL_TIMEOUT = 90.0          # hard limit (seconds) for ONE poisson() call pair inside the worker (first call includes the JIT)
+CALL_TIMEOUT = 90.0          # hard limit (seconds) without progress (40 _poisson evaluations, or the whole call) inside the worker
+MAX_REPLAY_DRAWS = 9000      # longest recorded stream that is replayed inside Coq
 MAX_EVALS = 1150             # a terminating bisection of [0, n], n <= 128, on binary64 makes at most 7 + 1075 evaluations
                              # (the width halves down to the smallest subnormal); more means the search does not terminate
 
@@ -173,6 +174,9 @@ def e2e_one(samp, c):
         if len(trace["slopes"]) >= MAX_EVALS or (len(trace["slopes"]) >= 25 and all(v == sl for v in trace["slopes"][-25:])):
             raise SearchRunaway()
         trace["slopes"].append(sl)
+        if len(trace["slopes"]) % 40 == 0 and c.get("_heartbeat"):
+            _sys.stdout.write(json.dumps({"hb": len(trace["slopes"])}) + "\n")      # progress: the parent restarts its clock
+            _sys.stdout.flush()
         if trace["ind"] is None:
             trace["ind"] = (np.asarray(f.f_locals["r"]) < 1)
         m = jit(*a)
@@ -296,6 +300,7 @@ def worker_main():
     sys.stdout.flush()
     for line in sys.stdin:
         c = json.loads(line)
+        c["_heartbeat"] = True
         res = e2e_one(samp, c)
         sys.stdout.write(json.dumps(res) + "\n")
         sys.stdout.flush()
@@ -348,11 +353,13 @@ class Worker:
         self.p.stdin.write((json.dumps(c) + "\n").encode())
         self.p.stdin.flush()
         r = self._readline(timeout)
+        while r is not None and "hb" in r:         # the search is still making evaluations: the limit is per 40 evaluations;
+            r = self._readline(timeout)            # runaway searches are cut by the evaluation-count rules inside the worker
         if r is None:
             alive = self.p.poll() is None
             self.kill()
             return {"status": "timeout" if alive else "crashed", "bad": [
-                "poisson() did not return within %.0f s (search does not terminate)" % timeout if alive
+                "poisson() made no progress for %.0f s (no _poisson evaluation finished; does not terminate)" % timeout if alive
                 else "worker process died"], "slopes": [], "actuals": [], "nev": 0}
         return r
 
@@ -464,9 +471,10 @@ def run(ctx):
               dict(ny=4, nx=4, cy=0, cx=0, slope=0.5, ma=1, seed=1),
               # 5707 draws on a 4 x 12 grid: far more outer iterations than pixels (samples accepted in pixels already set)
               dict(ny=4, nx=12, cy=2, cx=0, slope=2.0, ma=30, seed=151201803)]
-    budget = 0
+    budget = n_long = idx = 0
     while len(corr) < n_corr:
-        c = corpus[len(corr)] if len(corr) < len(corpus) else gen_corr_case(rng)
+        c = corpus[idx] if idx < len(corpus) else gen_corr_case(rng)
+        idx += 1
         m, rec, rx, ry = run_pyfunc(samp, c)
         ndraw = sum(1 for d in rec if d[0] != "s")
         nseed = sum(1 for d in rec if d[0] == "s")
@@ -481,7 +489,17 @@ def run(ctx):
         ctx.count("kernel:%s" % ("calib" if (c["cy"] or c["cx"]) else "nocalib"), key=json.dumps(c, sort_keys=True),
                   nontrivial=ndraw > 10 and m.sum() > 0,
                   sample={"params": c, "draws": ndraw, "samples": int(m.sum()), "jit_samples": int(jm.sum())})
-        d = dict(case=c, m=m, rec=rec, expr=corr_expr(c, m, rec, rx, ry), bad=bad + ["jit: " + b for b in jbad], ndraw=ndraw)
+        d = dict(case=c, m=m, rec=rec, bad=bad + ["jit: " + b for b in jbad], ndraw=ndraw)
+        if ndraw > MAX_REPLAY_DRAWS:
+            # very long runs are only checked by the oracle (a multi-megabyte list literal overflows coqc's stack)
+            ctx.count("kernel:too-long-for-replay", key=json.dumps(c, sort_keys=True), nontrivial=False)
+            if d["bad"]:
+                py_bad.append(d)
+            n_long += 1
+            if n_long > 4 * n_corr:
+                break
+            continue
+        d["expr"] = corr_expr(c, m, rec, rx, ry)
         corr.append(d)
         if d["bad"]:
             py_bad.append(d)
@@ -619,6 +637,9 @@ def replay(obj):
         return 1 if bad else 0
     r = run_e2e([c], CALL_TIMEOUT, 1)[0]
     r.pop("small", None)
+    for k in ("slopes", "actuals"):
+        if len(r.get(k, [])) > 12:
+            r[k] = r[k][:6] + ["... %d more ..." % (len(r[k]) - 12)] + r[k][-6:]
     print("case", c, "\nobserved", json.dumps(r, indent=1), "\nviolated:", r["bad"])
     return 1 if r["bad"] else 0
 
